@@ -289,6 +289,98 @@ print(json.dumps(res))
     return n
 
 
+def order_worker(task: Tuple) -> Tuple[str, Any]:
+    """One fresh interpreter: build source and target with their factors multiplied in the given
+    order, then run the real in_unit on a symbolic magnitude."""
+    from engine import convterm
+
+    families.boot()
+    import measured
+
+    s, d, mode = task
+
+    def build(spec: Any) -> Any:
+        (base, exp), factors = spec
+        fs = list(factors)[::-1] if mode == "rev" else list(factors)
+        u = measured.One
+        for name, e in fs:
+            u = u * measured.Unit.named(name) ** e
+        return measured.Prefix(base, exp) * u if base else u
+
+    with symnum.Shims():
+        cv = convterm.convert(build(s), build(d))
+    return cv.outcome, (str(cv.c) if cv.c is not None else None)
+
+
+def order_replay(s: Any, d: Any) -> str:
+    return f"""import subprocess, json
+SRC, DST = {s!r}, {d!r}
+CODE = '''
+import json, sys
+import measured, measured.systems
+src, dst, mode = json.loads(sys.argv[1]), json.loads(sys.argv[2]), sys.argv[3]
+def build(spec):
+    (base, exp), factors = spec
+    fs = factors[::-1] if mode == "rev" else factors
+    u = measured.One
+    for name, e in fs:
+        u = u * measured.Unit.named(name) ** e
+    return measured.Prefix(base, exp) * u if base else u
+a, b = build(src), build(dst)
+try:
+    print(json.dumps(["ok", float((1 * a).in_unit(b).magnitude)]))
+except measured.conversions.ConversionNotFound:
+    print(json.dumps(["ConversionNotFound"]))
+'''
+def run(mode):
+    p = subprocess.run([sys.executable, '-c', CODE, json.dumps(SRC), json.dumps(DST), mode], capture_output=True, text=True)
+    return json.loads(p.stdout.strip().splitlines()[-1])
+fwd, rev = run('fwd'), run('rev')
+print('factors multiplied in the written order :', fwd)
+print('factors multiplied in the reverse order :', rev)
+if fwd[0] != rev[0] or (fwd[0] == 'ok' and abs(fwd[1] - rev[1]) > 1e-9 * abs(fwd[1])):
+    print('REPRODUCED: the same unit converts differently depending on the order it was first built in'); sys.exit(1)
+sys.exit(0)
+"""
+
+
+def construction_order(rep: report.Report, tier: str) -> None:
+    """The outcome of a conversion must not depend on the order in which the (interned, hence
+    shared) source / target unit was first multiplied together earlier in the process."""
+    from fractions import Fraction
+
+    from engine import par
+    from props import conv_common as cc
+
+    pairs = [p for p in cc.compound_pair_specs(3, core_only=True, limit=3000, seed=1) if len(p[0][1]) >= 3]
+    pairs = pairs[:48] if tier == "quick" else pairs[:800]
+    tasks = [(s, d, m) for s, d in pairs for m in ("fwd", "rev")]
+    res = par.run("props.c08", "order_worker", tasks, maxtasksperchild=1)
+    outcome_diff, value_diff = [], []
+    for i in range(0, len(res), 2):
+        (o1, c1), (o2, c2) = res[i], res[i + 1]
+        s, d = tasks[i][0], tasks[i][1]
+        if o1 != o2:
+            outcome_diff.append((s, d, o1, o2))
+        elif o1 == "ok" and abs(Fraction(c1) - Fraction(c2)) > Fraction(1, 10 ** 9) * abs(Fraction(c1)):
+            value_diff.append((s, d, c1, c2))
+        rep.ob("unsat" if o1 == o2 and (s, d) not in [(a, b) for a, b, *_ in value_diff] else "sat",
+               "conversion independent of the order the unit was first built in", ("order", i))
+    rep.coverage["construction_order"] = {"pairs": len(pairs), "outcome_differs": len(outcome_diff),
+                                          "value_differs": len(value_diff)}
+    if outcome_diff:
+        s, d, o1, o2 = outcome_diff[0]
+        rep.violation("C08:outcome-depends-on-the-order-a-unit-was-first-built-in",
+                      f"{len(outcome_diff)} of {len(pairs)} three-factor pairs: e.g. {s} -> {d} gives {o1} when the "
+                      f"factors are multiplied in one order and {o2} in the reverse order",
+                      order_replay(json.loads(json.dumps(s)), json.loads(json.dumps(d))))
+    if value_diff:
+        s, d, c1, c2 = value_diff[0]
+        rep.violation("C08:value-depends-on-the-order-a-unit-was-first-built-in",
+                      f"{len(value_diff)} pairs convert to different values depending on construction order, "
+                      f"e.g. {s} -> {d}", order_replay(json.loads(json.dumps(s)), json.loads(json.dumps(d))))
+
+
 def main(tier: str, selftest_cases: int = 0) -> int:
     rep = report.Report(PID, tier, "model_checking")
     families.boot()
@@ -317,6 +409,7 @@ def main(tier: str, selftest_cases: int = 0) -> int:
                           f"alone give {'fails' if r['specified'] == EMPTY else r['specified']}",
                           replay(r["history"]))
             break
+    construction_order(rep, tier)
     rep.functions.update(["measured.conversions.equate", "measured.conversions.translate",
                           "measured.conversions.convert", "measured.conversions._plan_conversion",
                           "measured.conversions._find_path", "measured.conversions._inline_paths"])
